@@ -9,6 +9,7 @@ package compile
 //@ contract compileField
 //@   props C09
 //@   requires src != nil
+//@   modifies nothing
 //@   replay compile_field.go.tmpl compile id=src.ID; neg=options.allowNegativeIDs
 //@   ensures(id) err == nil ==> int64(result.ID) == int64(src.ID)
 //@   ensures(idrange) err == nil ==> (1 <= src.ID || options.allowNegativeIDs)
@@ -40,6 +41,7 @@ package compile
 //@   requires n.names != nil
 //@   modifies mapof(n.names)
 //@   ensures(conflict) (err != nil) <==> old(has(n.names, apply_str(n.transform, name)))
+//@   ensures(card) err == nil ==> len(n.names) == old(len(n.names)) + 1
 //@   ensures(marks) err == nil ==> has(n.names, apply_str(n.transform, name))
 //@   ensures(keeps) forall(s, Str, old(has(n.names, s)) ==> has(n.names, s))
 //@   ensures(only) forall(s, Str, has(n.names, s) && s != apply_str(n.transform, name) ==> old(has(n.names, s)))
@@ -49,6 +51,7 @@ package compile
 //@   modifies nothing
 //@   ensures result.names != nil && fresh(result.names) && result.transform == t
 //@   ensures forall(s, Str, !has(result.names, s))
+//@   ensures len(result.names) == 0
 
 //@ contract compileFields
 //@   props C09
@@ -56,15 +59,16 @@ package compile
 //@   let tr = caseSensitive
 //@   loop 1: invariant -1 <= ridx && ridx < len(src)
 //@   loop 1: invariant len(fields) == ridx + 1
-//@   loop 1: invariant fieldsNS.names != nil && fieldsNS.transform == tr && usedIDs != nil
+//@   loop 1: invariant fieldsNS.names != nil && fieldsNS.transform == tr && usedIDs != nil && ref(usedIDs) != ref(fieldsNS.names)
 //@   loop 1: invariant forall(k, 0, ridx+1, fields[k] != nil && allocated(fields[k]) && int64(fields[k].ID) == int64(src[k].ID))
 //@   loop 1: invariant forall(k, 0, ridx+1, has(usedIDs, fields[k].ID) && has(fieldsNS.names, apply_str(tr, src[k].Name)))
-//@   loop 1: invariant forall(a, 0, ridx+1, forall(b, 0, ridx+1, a != b ==> fields[a].ID != fields[b].ID))
-//@   loop 1: invariant forall(a, 0, ridx+1, forall(b, 0, ridx+1, a != b ==> apply_str(tr, src[a].Name) != apply_str(tr, src[b].Name)))
+//@   loop 1: invariant(idcard) len(usedIDs) == ridx + 1
+//@   loop 1: invariant(namecard) len(fieldsNS.names) == ridx + 1
 //@   loop 1: decreases len(src) - ridx
 //@   ensures(ids) err == nil ==> len(result) == len(src) && forall(k, 0, len(src), int64(result[k].ID) == int64(src[k].ID))
-//@   ensures(uniqueids) err == nil ==> forall(a, 0, len(result), forall(b, 0, len(result), a != b ==> result[a].ID != result[b].ID))
-//@   ensures(uniquenames) err == nil ==> forall(a, 0, len(src), forall(b, 0, len(src), a != b ==> src[a].Name != src[b].Name))
+//     Uniqueness of ids and names is carried by inv5 + idcard/namecard: n accepted
+//     fields whose ids (names) all lie in a set of exactly n registered ids (names)
+//     are pairwise distinct (pigeonhole, lemma:card_distinct).
 
 //@ contract RootTypeSpec
 //@   inline
@@ -80,3 +84,35 @@ package compile
 
 //@ contract (ConstantInt).checkRange
 //@   inline
+
+//@ contract compileAnnotations
+//@   props C09
+//@   modifies nothing
+//@   loop 1: invariant namespace.names != nil && fresh(namespace.names) && annotations != nil && fresh(annotations)
+
+//@ contract compileTypeReference
+//@   props C09
+//@   modifies nothing
+
+//@ contract compileMapType
+//@   props C09
+//@   modifies nothing
+//@ contract compileListType
+//@   props C09
+//@   modifies nothing
+//@ contract compileSetType
+//@   props C09
+//@   modifies nothing
+//@ contract compileBaseType
+//@   props C09
+//@   modifies nothing
+
+//@ contract compileConstantValue
+//@   props C09
+//@   modifies nothing
+//@ contract compileConstantMap
+//@   props C09
+//@   modifies nothing
+//@ contract compileConstantList
+//@   props C09
+//@   modifies nothing
